@@ -24,7 +24,6 @@ let show_row (r : row) =
 let show_rows rows = String.concat rs (List.map show_row rows)
 
 let show_value = function VStr s -> "S" ^ e s | VNum s -> "N" ^ e s
-let show_tuple t = String.concat gs (List.map show_value t)
 
 let run_scenario (ops : string list) : string =
   let tbl = ref [] in
@@ -32,10 +31,10 @@ let run_scenario (ops : string list) : string =
     let f = List.map str_of_bytes (String.split_on_char us (dec_bytes opf)) in
     match f with
     | [k; line; status; tsb; tse; key; session; dir] when bytes_of_str k = "A" ->
-        let sql = insert_sql table line status tsb tse session dir in
+        let (sql, params) = insert_stmt table line status tsb tse session dir in
         let want = intended_row line status tsb tse session dir in
         let verdict =
-          match parse_insert table sql with
+          match insert_rows table (sql, params) with
           | None -> "none"
           | Some rows when rows = [want] ->
               (match want with
@@ -43,8 +42,8 @@ let run_scenario (ops : string list) : string =
                    tbl := db_insert !tbl inp (z_of_int (int_of_string (bytes_of_str key))) se info
                | _ -> ());
               "intended"
-          | Some rows -> "other" ^ rs ^ String.concat rs (List.map show_tuple rows) in
-        String.concat usS ["A"; e sql; verdict; show_rows !tbl]
+          | Some rows -> "other" in
+        String.concat usS ["A"; e sql; String.concat rs (List.map show_value params); verdict; show_rows !tbl]
     | [k; n] when bytes_of_str k = "D" ->
         let sql = delete_sql table n in
         tbl := db_delete !tbl (n_of_int (int_of_string (bytes_of_str n)));
@@ -52,9 +51,9 @@ let run_scenario (ops : string list) : string =
     | [k; pattern; fs; fa; fp; limit; session; dir] when bytes_of_str k = "L" ->
         let b x = bytes_of_str x = "1" in
         let o = { o_session = b fs; o_asc = b fa; o_pwd = b fp; o_limit = z_of_int (int_of_string (bytes_of_str limit)) } in
-        let sql = select_sql table pattern session dir o limit in
+        let (sql, params) = select_stmt table pattern session dir o limit in
         let rows = db_list !tbl pattern session dir o in
-        String.concat usS ["L"; e sql; show_rows rows]
+        String.concat usS ["L"; e sql; String.concat rs (List.map e params); show_rows rows]
     | k :: _ when bytes_of_str k = "P" -> "P"
     | _ -> "?bad-op") ops in
   String.concat "\t" outs
@@ -63,10 +62,6 @@ let () =
   iter_lines (fun l ->
     match split_tab l with
     | "scn" :: ops -> print_endline (run_scenario ops)
-    | ["lex"; f] ->
-        (match lex_literal (str_of_field f) with
-         | None -> print_endline "none"
-         | Some (v, rest) -> print_endline ("some \"" ^ e v ^ "\" \"" ^ e rest ^ "\""))
     | ["like"; p; t] ->
         print_endline (if like (str_of_field p) (str_of_field t) then "1" else "0")
     | "sess" :: typed ->
